@@ -10,6 +10,9 @@ spec `PV.Spec.Ini` (documented format as an AST, `render`, `meaning`, `WF`).
 fuel, no `partial`, no well-founded recursion.  That Lean accepted the definitions *is* the proof that
 parsing terminates on every byte string; the theorems below therefore quantify over all `input : Bytes`.
 
+**Life cycle.** `Handle` / `fileParse` model the object (section (e)); `fileParseClose` additionally scripts the result of
+the final `fclose` and counts the `fclose` calls and warning lines (`close_failure_is_harmless`; op `lifec` of the check).
+
 Not covered here (see the check's assumptions): glibc's `sscanf`/`fgets`/`isspace`/`atoi` agreeing
 with `scan`/`splitLines`/`isSpace`/`atoi`; `p_strtod` (modelled on `Float`, compared bit for bit by the
 differential run only, no theorem).
@@ -307,6 +310,27 @@ theorem parse_once (fs fs' : Bytes → Except Bool Bytes) (path content : Bytes)
     fileParse fs' r.1 = (r.1, true, none) := by
   simp [fileParse, fileNew, hfs, fileIsParsed, visible]
 
+/-- A failing `fclose` at the end of `p_ini_file_parse` is only logged: whatever `fclose` returns, the call has the
+result, the error and the object of `fileParse` (so `parse_once`, `consistent`, `parse_render_partial` … hold for it
+as well), `fclose` is called exactly when this call opened the file — once, never after a failed `fopen`, never on
+a NULL or already parsed object —, and the warning is printed exactly when that call failed. -/
+theorem close_failure_is_harmless (fs : Bytes → Except Bool Bytes) (closeOk : Bool) (h : Option Handle) :
+    (fileParseClose fs closeOk h).1 = fileParse fs h ∧
+    (fileParseClose fs closeOk h).2.fcloseCalls ≤ 1 ∧
+    ((fileParseClose fs closeOk h).2.fcloseCalls = 1 ↔
+      (fileIsParsed h = false ∧ fileIsParsed (fileParse fs h).1 = true)) ∧
+    ((fileParseClose fs closeOk h).2.warnings = 1 ↔
+      (closeOk = false ∧ (fileParseClose fs closeOk h).2.fcloseCalls = 1)) := by
+  cases h with
+  | none => simp [fileParseClose, fileParse, fileIsParsed]
+  | some hd =>
+    cases hp : hd.parsed with
+    | true => simp [fileParseClose, fileParse, fileIsParsed, hp]
+    | false =>
+      cases hf : fs hd.path with
+      | error ne => simp [fileParseClose, fileParse, fileIsParsed, hp, hf]
+      | ok content => cases closeOk <;> simp [fileParseClose, fileParse, fileIsParsed, hp, hf]
+
 /-! ## (f) the `pstring.c` entry points the parser and the getters rely on -/
 
 /-- `p_strchomp` "removes trailing and leading whitespaces": for every string the result is the string
@@ -370,5 +394,9 @@ example : strtokLoop [44, 32] 8 [44, 97, 44, 32, 98, 99, 44] = [[97], [98, 99]] 
 example : (fileParse (fun _ => .ok f3Input) (fileParse (fun _ => .ok [91, 115, 93, 10, 107, 61, 118]) (fileNew (some [102]))).1).1.map (·.file)
     = some [⟨[115], [([107], [118])]⟩] := by decide
 example : apiBoolean (fileNew (some [102])) (some [115]) (some [107]) false = .val false := by decide
+example : ((fileParseClose (fun _ => .ok [91, 115, 93, 10, 107, 61, 118]) false (fileNew (some [102]))).1.1.map (·.file),
+           (fileParseClose (fun _ => .ok [91, 115, 93, 10, 107, 61, 118]) false (fileNew (some [102]))).1.2.1,
+           (fileParseClose (fun _ => .ok [91, 115, 93, 10, 107, 61, 118]) false (fileNew (some [102]))).2)
+    = (some [⟨[115], [([107], [118])]⟩], true, ⟨1, 1⟩) := by decide
 
 end PV.Ini
